@@ -545,3 +545,80 @@ func runC04ConcurrentOnce(c *CaseCtx, r *rand.Rand) (res CaseResult) {
 	res.Sample = map[string]interface{}{"family": "concurrent-once"}
 	return res
 }
+
+// runC08IfaceTwin: target func(x X, i I) with X implementing I. Redefine is
+// given the X value; the redefined function declares exactly the input I.
+// Calling it with an I value whose dynamic type is X again must run the
+// original with the ORIGINAL x and the new i ("the original function's own
+// results for the original arguments plus those values").
+func runC08IfaceTwin(c *CaseCtx, r *rand.Rand) (res CaseResult) {
+	pairs := [][2]int{{0, tI0}, {1, tI0}, {1, tI1}, {2, tI1}, {1, tI2}}
+	pr := pairs[r.Intn(len(pairs))]
+	X, I := pr[0], pr[1]
+	res.Key = fmt.Sprintf("iface-twin x:%s i:%s", typeName(X), typeName(I))
+	res.NonTrivial = true
+	res.obs("family.iface-twin", 1)
+	w := NewWorld()
+	spec := FuncSpec{In: []Label{{Type: X}, {Type: I}}, InForm: r.Intn(3), OutForm: FormPos}
+	if r.Intn(2) == 0 {
+		spec.In[0], spec.In[1] = spec.In[1], spec.In[0]
+	}
+	if r.Intn(2) == 0 {
+		spec.Out = []Label{{Type: 4}}
+	}
+	tg, err := w.Build(-1, spec, r)
+	if err != nil {
+		res.Skip = "instantiate"
+		return res
+	}
+	det := map[string]interface{}{"target": spec.String()}
+	idA := w.FreshInput(-1, 0, Label{Type: X})
+	o := DoRedefine(w, tg.Func, []am.Arg{InputArg(Label{Type: X}, idA)})
+	res.Evals++
+	if o.Class == ClsPanic {
+		res.violate("C06", "panic/redefine-"+crashKey(o.Panic), "Redefine panicked: "+o.Panic, det)
+		return res
+	}
+	if o.Func == nil || o.Err != nil {
+		res.violate("C08", "redefine-failed", "every target parameter is permitted (no filter) but Redefine failed: "+firstLine(errStr(o.Err)), det)
+		return res
+	}
+	decl := declaredInputs(o.Func)
+	if len(decl) != 1 || decl[0] != (Label{Type: I}) {
+		res.violate("C08", "input-already-supplied", fmt.Sprintf("the redefined function declares %v; the caller supplied the %s, only the %s is missing", decl, typeName(X), typeName(I)), det)
+		return res
+	}
+	for k := 1; k <= tierReps(c.Tier, 6, 12); k++ {
+		// the new value has dynamic type X in half of the calls
+		conc := X
+		if k%2 == 0 {
+			conc = concreteFor(I, r)
+		}
+		idB := w.FreshInput(k, 1, Label{Type: conc})
+		n0 := w.NumEvents()
+		oc := DoCall(w, o.Func, []am.Arg{am.Typed(mk(conc, idB).Interface())})
+		res.Evals++
+		d := map[string]interface{}{"target": spec.String(), "new_value_type": typeName(conc), "class": oc.Class, "err": firstLine(errStr(oc.Err)), "events": eventsStr(oc.Events)}
+		if oc.Class != ClsOK {
+			res.violate("C08", "redefined-call-fails/"+oc.Class, "the redefined function was given a value for its only declared input but failed: "+firstLine(errStr(oc.Err))+oc.Panic, d)
+			continue
+		}
+		for _, e := range w.EventsFrom(n0) {
+			if e.Func != -1 {
+				continue
+			}
+			for _, a := range e.Args {
+				want := idB
+				if a.Param.Type == X {
+					want = idA
+				}
+				if a.ID != want {
+					res.violate("C08", "results-of-another-call", fmt.Sprintf("the original function ran with %v = #%d; the original argument is #%d (%s), the new input #%d (%s)", a.Param, a.ID, idA, typeName(X), idB, typeName(I)), d)
+				}
+			}
+			res.obs("redefined_calls_checked", 1)
+		}
+	}
+	res.Sample = det
+	return res
+}
